@@ -866,6 +866,6 @@ func TestC09(t *testing.T) {
 		Assumptions: []string{"reports are attributed by the ids / values they mention, so a report that names the right tokens for a wrong reason passes",
 			"dangling references in non-nullable fields and plain (non-bucket) keys inside a set index are not injected"},
 		Gen: genC09, Run: runC09,
-		QuickChecks: 2500, ThoroughFactor: 20,
+		QuickChecks: 5000, ThoroughFactor: 10,
 	})
 }
